@@ -44,6 +44,76 @@ def _inc(ctx, rule, name, fam, rv, what):
               key=f"{rule}|{name}|{what}", witness=repr(cex))
 
 
+def twprge_negatives(ctx, rule='RX-LANG-NEG'):
+    """no Twp/Rge pattern fires inside a section / lot list that is followed by an E/W aliquot"""
+    n = 0
+    for name in ('twprge_regex', 'pp_twprge_no_nswe', 'pp_twprge_no_nsr', 'pp_twprge_no_ewt', 'pp_twprge_ocr_scrub'):
+        try:
+            rv = ctx.fold.get('rgxlib.twprge', name)
+        except AnalysisError:
+            continue
+        L = common.lang(ctx, rv)
+        hits = []
+        for w in F.NOT_TWPRGE:
+            sp = [s_ for s_ in L.search_spans(w) if s_[1] > s_[0]]
+            if sp:
+                hits.append((w, w[sp[0][0]:sp[0][1]]))
+        n += 1
+        ctx.check(not hits, rule, f"{name} does not fire inside a section / lot list",
+                  f"{len(F.NOT_TWPRGE)} lists tried",
+                  f"{name} matches {hits[0][1]!r} in {hits[0][0]!r}: the end of a section list and the E/W of the aliquot after it "
+                  f"are read (and, by the preprocessor, rewritten) as a Twp/Rge, so the sections collapse into one bogus tract"
+                  if hits else '', key=f"{rule}|{name}|section-list", where='pytrs/parser/rgxlib/twprge.py')
+    ctx.floor('Twp/Rge patterns tried on section lists', n, 4)
+
+
+def ocr_direction_is_mandatory(ctx):
+    """In the OCR pattern the township number may be written with look-alike
+    letters, one of which is 'S' (for 5).  'S' is also a direction.  The two
+    readings of 'T15S' are kept apart only because the N/S group is
+    mandatory: the last 'S' has to be the direction.  If the group becomes
+    optional the number class takes the 'S' ('15S' -> 155) and the explicit
+    South is replaced by the default direction."""
+    from .. import rx as _rx
+    rv = ctx.fold.get('rgxlib.twprge', 'pp_twprge_ocr_scrub')
+    gf = common.group_facts(ctx, rv)
+    construct = "pp_twprge_ocr_scrub: an explicit N/S cannot be read as a look-alike digit"
+    if 'twpnum' not in gf or 'ns' not in gf:
+        ctx.undecided('RX-GROUPS', construct, 'groups twpnum / ns not found')
+        return
+    cls_chars = set()
+    for it in gf['twpnum'].node:
+        for sub in ast_walk_sre(it):
+            for ch in 'NnSs':
+                if sub[0] in _rx.SINGLE and _rx.char_matches(sub[0], sub[1], ch, rv.flags):
+                    cls_chars.add(ch)
+    overlap = sorted(cls_chars)
+    ctx.check(not (overlap and gf['ns'].optional), 'RX-GROUPS', construct,
+              f"number class letters {overlap}; ns optional={gf['ns'].optional}",
+              f"the township-number class accepts {overlap} and the N/S group is optional: in 'T15S-R9E' the class takes the S "
+              f"(155) and no direction is left, so an explicit South is overridden by default_ns (T155N) and a bogus "
+              f"fixed_twprge warning appears", key="RX-GROUPS|pp_twprge_ocr_scrub|ns-optional",
+              where='pytrs/parser/rgxlib/twprge.py')
+
+
+def ast_walk_sre(item):
+    """all (op, av) items inside one parsed regex item"""
+    import re._constants as _C
+    from .. import rx as _rx
+    op, av = item
+    yield item
+    if op is _C.SUBPATTERN:
+        for x in av[3]:
+            yield from ast_walk_sre(x)
+    elif op is _C.BRANCH:
+        for alt in av[1]:
+            for x in alt:
+                yield from ast_walk_sre(x)
+    elif op in _rx.REPEATS:
+        for x in av[2]:
+            yield from ast_walk_sre(x)
+
+
 def _config_words(ctx):
     """the settings this property relies on are understood in a config string"""
     g = lambda a: ctx.fold.get_attr('config.config', 'Config', a)
@@ -153,6 +223,8 @@ def check(ctx):
     ctx.attempt(_inc, 'RX-LANG', 'pp_twprge_no_nsr', F.TWPRGE_NO_NSR, g('pp_twprge_no_nsr'), 'T and e/w, n/s and R missing')
     ctx.attempt(_inc, 'RX-LANG', 'pp_twprge_no_ewt', F.TWPRGE_NO_EWT, g('pp_twprge_no_ewt'), 'R and n/s, T and e/w missing')
     ctx.attempt(_inc, 'RX-LANG', 'pp_twprge_ocr_scrub', F.TWPRGE_OCR, g('pp_twprge_ocr_scrub'), 'OCR look-alike digits')
+    ctx.attempt(ocr_direction_is_mandatory)
+    ctx.attempt(twprge_negatives)
     ctx.attempt(_inc, 'RX-LANG', 'pp_twprge_pm', F.TWPRGE_CANON + F.PM_TAIL, g('pp_twprge_pm'), 'Twp/Rge + principal meridian')
     _inc(ctx, 'RX-LANG', 'pp_twprge_comma_remove', F.TWPRGE_FULL + r"[,;:]?[ ]?",
          g('pp_twprge_comma_remove'), 'Twp/Rge + trailing comma')
